@@ -46,7 +46,7 @@ class SRv6EndXSID(TLV):
         algorithm = ord(data[3:4])
         weight = ord(data[4:5])
         # reserved = ord(data[5:6])
-        sid = str(netaddr.IPAddress(int(binascii.b2a_hex(data[6:22]), 16)))
+        sid = str(netaddr.IPAddress(int(binascii.b2a_hex(data[6:22]), 16), 6))
         sub_tlvs_bin_data = data[22:]
 
         sub_tlvs = []
